@@ -107,10 +107,16 @@ class Context:
 
     def floor(self, rule: str, count: int, minimum: int) -> None:
         """Instance floor: a rule that matched fewer sites than confirmed by hand is analysis-broken (exit 2)."""
-        self.floors.append((rule, count, minimum))
+        # ``minimum`` is the count confirmed by hand; the run is undecidable only when fewer than half of the confirmed
+        # instances are matched (anchor moved / idiom unknown).  Between half and the confirmed count the rules
+        # themselves report what is missing (a deleted site must surface as a VIOLATION of its rule, not as exit 2).
+        hard = max(1, (minimum + 1) // 2)
+        self.floors.append((rule, count, hard))
         if count < minimum:
+            self.notes.append(f'rule {rule}: matched {count} instance(s), {minimum} were confirmed on the pinned tree')
+        if count < hard:
             raise core.AnalysisError(
-                f'rule {rule}: matched {count} instance(s), below the floor of {minimum} confirmed on the pinned tree '
+                f'rule {rule}: matched {count} instance(s), below the floor of {hard} (half of the {minimum} confirmed on the pinned tree) '
                 '(anchor moved or idiom not recognised) - cannot decide'
             )
 
